@@ -13,7 +13,7 @@ Variable K : kinds.
 Variable rsS rsT : list rule.            (* source rules; rules of the grammar read back *)
 Variable toks : list rtok.
 Variable kw soft : list string.
-Variable aevalP : alt -> list value -> list (string * value) -> nat -> nat -> option value.
+Variable aevalP aevalPT : alt -> list value -> list (string * value) -> nat -> nat -> option value.   (* source side, read-back side *)
 Variable nameS nameT : alt -> nat -> option string.
 Variable fm : string.                    (* the message of a failing forced item (not compared) *)
 
@@ -22,11 +22,14 @@ Notation starS := (peg_star K rsS toks kw soft aevalP nameS (fun _ => fm)).
 Notation sepS := (peg_sep K rsS toks kw soft aevalP nameS (fun _ => fm)).
 Notation seqS := (peg_seq K rsS toks kw soft aevalP nameS (fun _ => fm)).
 Notation altsS := (peg_alts K rsS toks kw soft aevalP nameS (fun _ => fm)).
-Notation pT := (peg_item K rsT toks kw soft aevalP nameT (fun _ => fm)).
-Notation starT := (peg_star K rsT toks kw soft aevalP nameT (fun _ => fm)).
-Notation sepT := (peg_sep K rsT toks kw soft aevalP nameT (fun _ => fm)).
-Notation seqT := (peg_seq K rsT toks kw soft aevalP nameT (fun _ => fm)).
-Notation altsT := (peg_alts K rsT toks kw soft aevalP nameT (fun _ => fm)).
+Notation pT := (peg_item K rsT toks kw soft aevalPT nameT (fun _ => fm)).
+Notation starT := (peg_star K rsT toks kw soft aevalPT nameT (fun _ => fm)).
+Notation sepT := (peg_sep K rsT toks kw soft aevalPT nameT (fun _ => fm)).
+Notation seqT := (peg_seq K rsT toks kw soft aevalPT nameT (fun _ => fm)).
+Notation altsT := (peg_alts K rsT toks kw soft aevalPT nameT (fun _ => fm)).
+
+(* when two alternatives both carry an action: how they must correspond (decided per grammar, see [actb] below) *)
+Variable ActRel : alt -> alt -> Prop.
 
 Definition valued (i : item) : bool := negb (is_lookahead i || is_cut i).
 Definition never_fails (i : item) : bool := match i with Opt _ | Repeat0 _ _ => true | _ => false end.
@@ -57,7 +60,7 @@ with Rel0 : item -> item -> Prop :=
 | C_wrap j j' id k nm ty : valued j = true -> Rel j j' -> Rel0 j (Group (one id k nm ty j'))
 with RelAlts : list alt -> list alt -> Prop :=
 | RA_nil : RelAlts [] []
-| RA_cons a a' l l' : RelItems (alt_items a) (alt_items a') -> alt_action a = None -> alt_action a' = None ->
+| RA_cons a a' l l' : RelItems (alt_items a) (alt_items a') -> (alt_action a = None /\ alt_action a' = None) \/ ActRel a a' ->
     RelAlts l l' -> RelAlts (a :: l) (a' :: l')
 with RelItems : list nitem -> list nitem -> Prop :=
 | RI_nil : RelItems [] []
@@ -74,6 +77,11 @@ Definition RelBody (alts alts' : list alt) : Prop :=
   RelAlts alts alts' \/ exists k nm ty r0, alts = [Alt [NItem k nm ty (Group r0)] None] /\ RelAlts (rhs_alts r0) alts'.
 Hypothesis HN : forall n r, find_rule rsS n = Some r ->
   exists r', find_rule rsT n = Some r' /\ RelBody (rhs_alts (rrhs r)) (rhs_alts (rrhs r')).
+
+(* related actions: the same value on the same environment, the same names for the items, and both present *)
+Hypothesis HactRel : forall a a', ActRel a a' ->
+  (forall vals env s e, aevalP a vals env s e = aevalPT a' vals env s e) /\ (forall k, nameS a k = nameT a' k) /\
+  alt_action a <> None /\ alt_action a' <> None.
 
 Lemma valued_split i : valued i = true -> is_lookahead i = false /\ is_cut i = false.
 Proof. unfold valued. intros H. apply negb_true_iff in H. apply orb_false_iff in H. exact H. Qed.
@@ -146,7 +154,8 @@ Theorem desugar_sound :
   (forall i' p res, starT i' p res -> forall i, Rel i i' -> starS i p res) /\
   (forall s' e' p res, sepT s' e' p res -> forall s e, Rel s s' -> Rel e e' -> sepS s e p res) /\
   (forall a' k ns' p vals env cut r, seqT a' k ns' p vals env cut r ->
-     forall a ns envS, RelItems ns ns' -> exists rS, seqS a k ns p vals envS cut rS /\ srel r rS) /\
+     forall a ns envS, RelItems ns ns' -> exists rS, seqS a k ns p vals envS cut rS /\ srel r rS /\
+       ((forall j, nameS a j = nameT a' j) -> envS = env -> rS = r)) /\
   (forall alts' p res, altsT alts' p res -> forall alts, RelAlts alts alts' -> altsS alts p res).
 Proof.
   apply peg_mutind.
@@ -160,7 +169,7 @@ Proof.
     + rewrite Hf in Ht. injection Ht as <-. apply P_rhsitem. exact (IH _ HA).
     + rewrite Hf in Hg. injection Hg as <-. rewrite Hb in IH.
       apply (single_alt_inv 0 None None); [reflexivity|]. apply IH.
-      apply RA_cons; [|reflexivity|reflexivity|apply RA_nil]. cbn [alt_items]. apply RI_cons; [|apply RI_nil]. cbn [ni_item].
+      apply RA_cons; [|left; split; reflexivity|apply RA_nil]. cbn [alt_items]. apply RI_cons; [|apply RI_nil]. cbn [ni_item].
       apply R_core. apply C_gather_in; assumption.
   - (* P_token *) intros n p test Hf Hk. apply lift; [nf|]. intros i H0. inversion H0 as [n0 Hn| |r t rt Ht HA|r t rt Ht HA|id s e g rg s' e' Hg Hb Hs He| | | | | | | | |j j' id k nm ty Hv HR]; subst.
     + destruct (find_rule rsS n) as [r|] eqn:Es.
@@ -172,7 +181,7 @@ Proof.
   - (* P_lit *) intros raw p. apply lift; [nf|]. intros i H0. inversion H0; subst. apply P_lit.
   - (* P_group *) intros r' p res _ IH. apply lift; [nf|]. intros i H0. inversion H0 as [ | | | | | | | | | | | | |j j' id k nm ty Hv HR]; subst.
     apply (single_alt_inv k nm ty); [exact Hv|]. apply IH. cbn [one rhs_alts].
-    apply RA_cons; [|reflexivity|reflexivity|apply RA_nil]. cbn [alt_items]. apply RI_cons; [exact HR|apply RI_nil].
+    apply RA_cons; [|left; split; reflexivity|apply RA_nil]. cbn [alt_items]. apply RI_cons; [exact HR|apply RI_nil].
   - (* P_rhsitem *) intros r' p res _ _. apply lift; [nf|]. intros i H0. inversion H0.
   - (* opt *) intros j' p v p' _ IH. apply lift; [nf|]. intros i H0. inversion H0; subst. apply P_opt_some. apply IH. assumption.
   - intros j' p _ IH. apply lift; [nf|]. intros i H0. inversion H0; subst. apply P_opt_none. apply IH. assumption.
@@ -201,28 +210,38 @@ Proof.
   - intros s' e' p vs p1 _ IH _ IH2 s e Hs He. eapply PG_stop_e; [exact (IH s Hs)|exact (IH2 e He)].
   - intros s' e' p vs p1 m q _ IH _ IH2 s e Hs He. eapply PG_err_e; [exact (IH s Hs)|exact (IH2 e He)].
   - intros s' e' p vs p1 v p2 res _ IH _ IH2 _ IH3 s e Hs He. eapply PG_more; [exact (IH s Hs)|exact (IH2 e He)|exact (IH3 s e Hs He)].
-  - (* seq *) intros a' k p vals env cut a ns envS HR. inversion HR; subst. eexists; split; [apply PQ_nil|constructor].
+  - (* seq *) intros a' k p vals env cut a ns envS HR. inversion HR; subst.
+    eexists; split; [apply PQ_nil|]. split; [constructor|]. intros _ ->. reflexivity.
   - intros a' k n' ns' p vals env cut _ IH a ns envS HR. inversion HR as [|n n2 l l2 Hn Hl]; subst.
-    eexists; split; [apply PQ_fail; exact (IH _ Hn)|]. destruct cut; constructor.
+    eexists; split; [apply PQ_fail; exact (IH _ Hn)|]. split; [destruct cut; constructor|]. intros _ _. reflexivity.
   - intros a' k n' ns' p vals env cut m q _ IH a ns envS HR. inversion HR as [|n n2 l l2 Hn Hl]; subst.
-    eexists; split; [apply PQ_err; exact (IH _ Hn)|constructor].
+    eexists; split; [apply PQ_err; exact (IH _ Hn)|]. split; [constructor|]. intros _ _. reflexivity.
   - intros a' k n' ns' p vals env cut v p1 res _ IH _ IH2 a ns envS HR. inversion HR as [|n n2 l l2 Hn Hl]; subst.
     destruct (rel_look _ _ Hn) as [El Ec].
-    destruct (IH2 a l (if is_lookahead (ni_item n) then envS else bind_name nameS a k v envS) Hl) as (rS & HS & Hrel).
-    exists rS. split; [|exact Hrel]. eapply PQ_step; [exact (IH _ Hn)|]. rewrite El, Ec. rewrite El in HS. exact HS.
+    destruct (IH2 a l (if is_lookahead (ni_item n) then envS else bind_name nameS a k v envS) Hl) as (rS & HS & Hrel & Heq).
+    exists rS. split; [|split; [exact Hrel|]].
+    + eapply PQ_step; [exact (IH _ Hn)|]. rewrite El, Ec. rewrite El in HS. exact HS.
+    + intros Hnm Henv. apply Heq; [exact Hnm|]. rewrite Henv, El. unfold bind_name. rewrite (Hnm k). reflexivity.
   - (* alts *) intros p alts HR. inversion HR; subst. apply PA_nil.
-  - intros a' rest' p vals env p' v _ IH Hval alts HR. inversion HR as [|a a2 l l2 Hi Ha Ha' Hl]; subst.
-    destruct (IH a (alt_items a) [] Hi) as (rS & HS & Hrel). inversion Hrel; subst.
-    eapply PA_ok; [exact HS|]. unfold alt_value in *. rewrite Ha. rewrite Ha' in Hval. exact Hval.
-  - intros a' rest' p res _ IH _ IH2 alts HR. inversion HR as [|a a2 l l2 Hi Ha Ha' Hl]; subst.
-    destruct (IH a (alt_items a) [] Hi) as (rS & HS & Hrel). inversion Hrel; subst.
+  - intros a' rest' p vals env p' v _ IH Hval alts HR. inversion HR as [|a a2 l l2 Hi Hact Hl]; subst.
+    destruct (IH a (alt_items a) [] Hi) as (rS & HS & Hrel & Heq). destruct Hact as [[Ha Ha']|HA].
+    + inversion Hrel; subst. eapply PA_ok; [exact HS|]. unfold alt_value in *. rewrite Ha. rewrite Ha' in Hval. exact Hval.
+    + destruct (HactRel _ _ HA) as (Hv & Hnm & Hs & Hs'). rewrite (Heq Hnm eq_refl) in HS.
+      eapply PA_ok; [exact HS|]. unfold alt_value in *.
+      destruct (alt_action a); [|contradiction]. destruct (alt_action a'); [|contradiction]. rewrite Hv. exact Hval.
+  - intros a' rest' p res _ IH _ IH2 alts HR. inversion HR as [|a a2 l l2 Hi Hact Hl]; subst.
+    destruct (IH a (alt_items a) [] Hi) as (rS & HS & Hrel & _). inversion Hrel; subst.
     eapply PA_next; [exact HS|exact (IH2 _ Hl)].
-  - intros a' rest' p _ IH alts HR. inversion HR as [|a a2 l l2 Hi Ha Ha' Hl]; subst.
-    destruct (IH a (alt_items a) [] Hi) as (rS & HS & Hrel). inversion Hrel; subst. eapply PA_cut; exact HS.
-  - intros a' rest' p m q _ IH alts HR. inversion HR as [|a a2 l l2 Hi Ha Ha' Hl]; subst.
-    destruct (IH a (alt_items a) [] Hi) as (rS & HS & Hrel). inversion Hrel; subst. eapply PA_err; exact HS.
-  - intros a' rest' p vals env p' _ IH Hval alts HR. inversion HR as [|a a2 l l2 Hi Ha Ha' Hl]; subst.
-    unfold alt_value in Hval. rewrite Ha' in Hval. discriminate Hval.
+  - intros a' rest' p _ IH alts HR. inversion HR as [|a a2 l l2 Hi Hact Hl]; subst.
+    destruct (IH a (alt_items a) [] Hi) as (rS & HS & Hrel & _). inversion Hrel; subst. eapply PA_cut; exact HS.
+  - intros a' rest' p m q _ IH alts HR. inversion HR as [|a a2 l l2 Hi Hact Hl]; subst.
+    destruct (IH a (alt_items a) [] Hi) as (rS & HS & Hrel & _). inversion Hrel; subst. eapply PA_err; exact HS.
+  - intros a' rest' p vals env p' _ IH Hval alts HR. inversion HR as [|a a2 l l2 Hi Hact Hl]; subst.
+    destruct (IH a (alt_items a) [] Hi) as (rS & HS & Hrel & Heq). destruct Hact as [[Ha Ha']|HA].
+    + unfold alt_value in Hval. rewrite Ha' in Hval. discriminate Hval.
+    + destruct (HactRel _ _ HA) as (Hv & Hnm & Hs & Hs'). rewrite (Heq Hnm eq_refl) in HS.
+      eapply PA_raise; [exact HS|]. unfold alt_value in *.
+      destruct (alt_action a); [|contradiction]. destruct (alt_action a'); [|contradiction]. rewrite Hv. exact Hval.
 Qed.
 End D.
 
@@ -233,6 +252,8 @@ Definition is_none {A} (o : option A) : bool := match o with None => true | Some
 
 Section Dec.
 Variable rsS rsT : list rule.
+Variable actb : alt -> alt -> bool.          (* decides the correspondence of two alternatives that carry actions *)
+Notation AR := (fun a a' => actb a a' = true).
 
 Definition is_ruleb (rs : list rule) (n : string) : bool := match find_rule rs n with Some _ => true | None => false end.
 
@@ -274,7 +295,7 @@ with rel_rhs (r : rhs) (alts' : list alt) {struct r} : bool :=
   end
 with rel_alt (a : alt) (a' : alt) {struct a} : bool :=
   match a with
-  | Alt items act => is_none act && is_none (alt_action a') &&
+  | Alt items act => ((is_none act && is_none (alt_action a')) || actb (Alt items act) a') &&
       (fix go (l : list nitem) (l' : list nitem) {struct l} : bool :=
          match l, l' with [], [] => true | n :: l, n' :: l' => rel_nitem n (ni_item n') && go l l' | _, _ => false end) items (alt_items a')
   end
@@ -283,21 +304,21 @@ with rel_nitem (n : nitem) (i' : item) {struct n} : bool := match n with NItem _
 Lemma rel_rhs_eq id alts alts' : rel_rhs (Rhs id alts) alts' = all2 rel_alt alts alts'.
 Proof. cbn [rel_rhs]. revert alts'. induction alts as [|a l IH]; intros [|a' l']; cbn [all2]; try reflexivity. rewrite <- IH. reflexivity. Qed.
 Lemma rel_alt_eq items act a' : rel_alt (Alt items act) a' =
-  is_none act && is_none (alt_action a') && all2 (fun n n' => rel_nitem n (ni_item n')) items (alt_items a').
+  ((is_none act && is_none (alt_action a')) || actb (Alt items act) a') && all2 (fun n n' => rel_nitem n (ni_item n')) items (alt_items a').
 Proof.
   cbn [rel_alt]. f_equal. generalize (alt_items a'). induction items as [|n l IH]; intros [|n' l']; cbn [all2]; try reflexivity.
   rewrite <- IH. reflexivity.
 Qed.
 
 Lemma all2_alts alts : Forall (fun a => forall a', rel_alt a a' = true ->
-    RelItems rsS rsT (alt_items a) (alt_items a') /\ alt_action a = None /\ alt_action a' = None) alts ->
-  forall alts', all2 rel_alt alts alts' = true -> RelAlts rsS rsT alts alts'.
+    RelItems rsS rsT AR (alt_items a) (alt_items a') /\ ((alt_action a = None /\ alt_action a' = None) \/ actb a a' = true)) alts ->
+  forall alts', all2 rel_alt alts alts' = true -> RelAlts rsS rsT AR alts alts'.
 Proof.
   induction 1 as [|a l Ha _ IH]; intros [|a' l'] H; cbn [all2] in H; try discriminate; [apply RA_nil|].
-  apply andb_prop in H as [H1 H2]. destruct (Ha a' H1) as (A & B & C). apply RA_cons; auto.
+  apply andb_prop in H as [H1 H2]. destruct (Ha a' H1) as (A & B). apply RA_cons; auto.
 Qed.
-Lemma all2_items items : Forall (fun n => forall i', rel_b (ni_item n) i' = true -> Rel rsS rsT (ni_item n) i') items ->
-  forall items', all2 (fun n n' => rel_nitem n (ni_item n')) items items' = true -> RelItems rsS rsT items items'.
+Lemma all2_items items : Forall (fun n => forall i', rel_b (ni_item n) i' = true -> Rel rsS rsT AR (ni_item n) i') items ->
+  forall items', all2 (fun n n' => rel_nitem n (ni_item n')) items items' = true -> RelItems rsS rsT AR items items'.
 Proof.
   induction 1 as [|n l Hn _ IH]; intros [|n' l'] H; cbn [all2] in H; try discriminate; [apply RI_nil|].
   apply andb_prop in H as [H1 H2]. apply RI_cons; [|exact (IH _ H2)]. apply Hn. destruct n; exact H1.
@@ -306,19 +327,19 @@ Qed.
 Ltac split_match H := repeat (match type of H with (match ?x with _ => _ end) = true => destruct x; try discriminate H end).
 Ltac via_helper HPr H C :=
   match goal with
-  | |- Rel _ _ _ ?i' => let Ef := fresh "Ef" in
+  | |- Rel _ _ _ _ ?i' => let Ef := fresh "Ef" in
       destruct i'; try discriminate H;
       match type of H with context [find_rule rsT ?x] =>
         destruct (find_rule rsT x) eqn:Ef; [|discriminate H]; apply R_core; eapply C; [exact Ef|apply HPr; exact H] end
   end.
 
 Lemma rel_b_sound :
-  (forall i i', rel_b i i' = true -> Rel rsS rsT i i') /\
-  (forall r, (forall alts', rel_rhs r alts' = true -> RelAlts rsS rsT (rhs_alts r) alts') /\
-             (forall id k nm ty i0, r = Rhs id [Alt [NItem k nm ty i0] None] -> forall i', rel_b i0 i' = true -> Rel rsS rsT i0 i')) /\
-  (forall a, (forall a', rel_alt a a' = true -> RelItems rsS rsT (alt_items a) (alt_items a') /\ alt_action a = None /\ alt_action a' = None) /\
-             (forall k nm ty i0 act, a = Alt [NItem k nm ty i0] act -> forall i', rel_b i0 i' = true -> Rel rsS rsT i0 i')) /\
-  (forall n i', rel_b (ni_item n) i' = true -> Rel rsS rsT (ni_item n) i').
+  (forall i i', rel_b i i' = true -> Rel rsS rsT AR i i') /\
+  (forall r, (forall alts', rel_rhs r alts' = true -> RelAlts rsS rsT AR (rhs_alts r) alts') /\
+             (forall id k nm ty i0, r = Rhs id [Alt [NItem k nm ty i0] None] -> forall i', rel_b i0 i' = true -> Rel rsS rsT AR i0 i')) /\
+  (forall a, (forall a', rel_alt a a' = true -> RelItems rsS rsT AR (alt_items a) (alt_items a') /\ ((alt_action a = None /\ alt_action a' = None) \/ actb a a' = true)) /\
+             (forall k nm ty i0 act, a = Alt [NItem k nm ty i0] act -> forall i', rel_b i0 i' = true -> Rel rsS rsT AR i0 i')) /\
+  (forall n i', rel_b (ni_item n) i' = true -> Rel rsS rsT AR (ni_item n) i').
 Proof.
   apply grammar_ast_ind.
   - (* NameLeaf *) intros n i' H. cbn [rel_b] in H. destruct i' as [n'| | | | | | | | | | | ]; try discriminate H.
@@ -328,7 +349,7 @@ Proof.
   - (* Group *) intros r [HPr HP1] i' H. destruct r as [id alts].
     destruct alts as [|[[|[k nm ty i0] [|n2 items]] [act|]] [|a2 rest]]; cbn [rel_b] in H;
       first [solve [via_helper HPr H C_group]|idtac].
-    apply andb_prop in H as [Hv H]. apply (R_group1 rsS rsT id k nm ty); [exact Hv|]. exact (HP1 id k nm ty i0 eq_refl i' H).
+    apply andb_prop in H as [Hv H]. apply (R_group1 rsS rsT AR id k nm ty); [exact Hv|]. exact (HP1 id k nm ty i0 eq_refl i' H).
   - intros j IH i' H. cbn [rel_b] in H. destruct i'; try discriminate H.
     + apply orb_prop in H as [H|H]; [apply R_core; apply C_opt; exact (IH _ H)|apply R_opt_keep; [reflexivity|exact (IH _ H)]].
     + apply R_opt_keep; [reflexivity|exact (IH _ H)].
@@ -351,14 +372,15 @@ Proof.
   - (* RhsItem *) intros r [HPr HP1] i' H. destruct r as [id alts].
     destruct alts as [|[[|[k nm ty i0] [|n2 items]] [act|]] [|a2 rest]]; cbn [rel_b] in H;
       first [solve [via_helper HPr H C_rhsitem]|idtac].
-    apply andb_prop in H as [Hv H]. apply (R_rhsitem1 rsS rsT id k nm ty); [exact Hv|]. exact (HP1 id k nm ty i0 eq_refl i' H).
+    apply andb_prop in H as [Hv H]. apply (R_rhsitem1 rsS rsT AR id k nm ty); [exact Hv|]. exact (HP1 id k nm ty i0 eq_refl i' H).
   - (* Rhs *) intros id alts HF. split.
     + intros alts' H. rewrite rel_rhs_eq in H. cbn [rhs_alts]. apply all2_alts; [|exact H].
       eapply Forall_impl; [|exact HF]. intros a [Ha _]. exact Ha.
     + intros id0 k nm ty i0 E i' H. injection E as _ E. subst alts. inversion HF as [|a l [_ Ha] _]; subst. exact (Ha k nm ty i0 None eq_refl i' H).
   - (* Alt *) intros items act HF. split.
-    + intros a' H. rewrite rel_alt_eq in H. apply andb_prop in H as [H H3]. apply andb_prop in H as [H1 H2].
-      cbn [alt_items alt_action]. split; [apply all2_items; assumption|]. split; [destruct act; [discriminate H1|reflexivity]|].
+    + intros a' H. rewrite rel_alt_eq in H. apply andb_prop in H as [H H3].
+      cbn [alt_items alt_action]. split; [apply all2_items; assumption|]. apply orb_prop in H as [H|H]; [left|right; exact H].
+      apply andb_prop in H as [H1 H2]. split; [destruct act; [discriminate H1|reflexivity]|].
       destruct (alt_action a'); [discriminate H2|reflexivity].
     + intros k nm ty i0 act0 E i' H. injection E as E _. subst items. inversion HF as [|n l Hn _]; subst. exact (Hn i' H).
   - intros id nm ty i IH i' H. cbn [ni_item] in *. exact (IH i' H).
@@ -377,13 +399,14 @@ Proof.
   - intros H. destruct (IH H) as [A B]. split; [right; exact A|exact B].
 Qed.
 
-Lemma rules_rel_sound rsS rsT : rules_rel_b rsS rsT = true ->
-  forall n r, find_rule rsS n = Some r -> exists r', find_rule rsT n = Some r' /\ RelBody rsS rsT (rhs_alts (rrhs r)) (rhs_alts (rrhs r')).
+Lemma rules_rel_sound rsS rsT actb : rules_rel_b rsS rsT actb = true ->
+  forall n r, find_rule rsS n = Some r ->
+  exists r', find_rule rsT n = Some r' /\ RelBody rsS rsT (fun a a' => actb a a' = true) (rhs_alts (rrhs r)) (rhs_alts (rrhs r')).
 Proof.
   intros H n r Hf. destruct (find_rule_in _ _ _ Hf) as [Hin Hn]. unfold rules_rel_b in H. rewrite forallb_forall in H.
   specialize (H r Hin). rewrite Hn in H. destruct (find_rule rsT n) as [r'|]; [|discriminate H].
   exists r'. split; [reflexivity|]. unfold body_rel_b in H. apply orb_prop in H as [H|H].
-  - left. exact (proj1 (proj1 (proj2 (rel_b_sound rsS rsT)) (rrhs r)) _ H).
+  - left. exact (proj1 (proj1 (proj2 (rel_b_sound rsS rsT actb)) (rrhs r)) _ H).
   - right. destruct (rrhs r) as [id [|[[|[k nm ty [| |r0| | | | | | | | | ]] [|]] [|]] [|]]]; try discriminate H.
-    exists k, nm, ty, r0. split; [reflexivity|]. exact (proj1 (proj1 (proj2 (rel_b_sound rsS rsT)) r0) _ H).
+    exists k, nm, ty, r0. split; [reflexivity|]. exact (proj1 (proj1 (proj2 (rel_b_sound rsS rsT actb)) r0) _ H).
 Qed.
